@@ -6,8 +6,8 @@ from cmdline_check import run_cmdline_property
 
 def families(tier):
     if tier == "quick":
-        return D.alt_family(SEED + 70, 40, maxlen=4, budget=5000)
-    return D.alt_family(SEED + 70, 160, maxlen=5, budget=60000)
+        return D.alt_family(SEED + 70, 32, maxlen=4, budget=5000) + D.group_family(SEED, 4, 3000)
+    return D.alt_family(SEED + 70, 160, maxlen=5, budget=60000) + D.group_family(SEED, 5, 40000)
 
 
 def gen(rnd, d):
